@@ -21,6 +21,9 @@ Mirrors, line by line:
 round that would not terminate are explicit `crashed` outcomes.  O_HEART_BEAT is "has an entry in hbs" (the C code
 sets/clears the flag exactly where it appends/removes).  The C code scans the array from the back, the model from
 the front: entries are unique per object (theorem `nodup_objs`).
+The decisive conditions and updates are NOT hand-copied: `NV.Gen.C11.{clampTo, rmCompensate, appendStore, efunSat,
+hbBody, loopStep, loopContinues}` are regenerated from the clang AST of the working tree on every run
+(props/c11_extract.py); NV/C11/Bridge.lean proves that they equal the forms the invariant proofs use.
 LPC code run by heart_beat functions is an oracle: `Scripts` maps (object, number of its beats so far) to the
 operations that heart_beat performs (the correspondence harness installs the same scripts in the real objects).
 -/
@@ -67,32 +70,31 @@ def idxOf (x : Nat) : List Entry → Option Nat
 
 def World.alive (w : World) (x : Nat) : Bool := w.known.contains x && !w.dead.contains x
 
-/-- src/backend.c set_heart_beat (ob, to) -/
+/-- src/backend.c set_heart_beat (ob, to).  The rewrite of `to` in front of the `!to` test, the compensation of
+    heart_beat_index / num_hb_to_do on removal and what the append branch stores are the definitions regenerated
+    from the source (`NV.Gen.C11.clampTo`, `rmCompensate`, `appendStore`) -/
 def setHeartBeat (w : World) (ob : Nat) (to : Int) : World :=
   if w.dead.contains ob then w
   else
-    let to := if to > shrtMax then shrtMax else to
+    let to := NV.Gen.C11.clampTo to
     if to = 0 then
       match idxOf ob w.hbs with
       | none => w
       | some index =>
-        let w1 :=
-          if w.todo ≠ 0 then
-            { w with idx := if (index : Int) ≤ w.idx then w.idx - 1 else w.idx,
-                     todo := if (index : Int) < w.todo then w.todo - 1 else w.todo }
-          else w
-        { w1 with hbs := w1.hbs.eraseIdx index }
+        let c := NV.Gen.C11.rmCompensate (index : Int) w.idx w.todo
+        { w with idx := c.1, todo := c.2, hbs := w.hbs.eraseIdx index }
     else if hasOb ob w.hbs then
       if to < 0 then w
       else
         match idxOf ob w.hbs with
         | none => w
-        | some index => { w with hbs := w.hbs.set index { ob := ob, ticks := wrap16 to, interval := wrap16 to } }
+        | some index =>
+          { w with hbs := w.hbs.set index { ob := ob, ticks := NV.Gen.C11.trunc16 to, interval := NV.Gen.C11.trunc16 to } }
     else
       let cap := if w.cap = 0 then chunk else if w.hbs.length = w.cap then w.cap + chunk else w.cap
       if w.hbs.length < cap then
-        let to := if to < 0 then 1 else to
-        { w with cap := cap, hbs := w.hbs ++ [{ ob := ob, ticks := wrap16 to, interval := wrap16 to }] }
+        let s := NV.Gen.C11.appendStore to
+        { w with cap := cap, hbs := w.hbs ++ [{ ob := ob, ticks := s.1, interval := s.2 }] }
       else { w with crashed := true }
 
 /-- src/backend.c query_heart_beat -/
@@ -113,7 +115,7 @@ def stepOp (w : World) (self : Nat) (op : Op) : World × List Ev × Status :=
   | .shb t n =>
     if !w.alive t then (w, [.shbDead self t n], .ok)
     else
-      let w' := setHeartBeat w t (satEfun n)
+      let w' := setHeartBeat w t (NV.Gen.C11.efunSat n)
       (w', [.shb self t n (queryHeartBeat w' t)], .ok)
   | .q t =>
     if !w.alive t then (w, [.queryDead self t], .ok)
@@ -129,7 +131,7 @@ def stepOp (w : World) (self : Nat) (op : Op) : World × List Ev × Status :=
       let k := if kind = 0 then 0 else 1
       let w1 := setHeartBeat w k 0
       let w2 := { w1 with known := new :: w1.known, nofn := if kind = 0 then w1.nofn else new :: w1.nofn }
-      let w3 := setHeartBeat w2 new (satEfun n)
+      let w3 := setHeartBeat w2 new (NV.Gen.C11.efunSat n)
       (w3, [.clone self new k n (queryHeartBeat w3 new)], .ok)
   | .err => (w, [.err self], .err)
   | .flag => ({ w with flag := true }, [.flag self], .ok)
@@ -150,7 +152,14 @@ def finish (w : World) : World := { w with idx := 0, todo := 0, cur := none }
 
 def crash (w : World) (why : String) : World × List Ev := ({ w with crashed := true }, [.junk s!"crash {why}"])
 
-/-- the while loop of call_heart_beat, entered with heart_beat_index = w.idx -/
+/-- `if (++heart_beat_index == num_hb_to_do) break;` followed by the test of the while condition
+    (`NV.Gen.C11.loopStep`, `loopContinues`): the cursor after the step and whether the round is over -/
+def cursorStep (w : World) : World × Bool :=
+  let st := NV.Gen.C11.loopStep w.idx w.todo
+  ({ w with idx := st.1 }, st.2 || !NV.Gen.C11.loopContinues (if w.flag then 1 else 0))
+
+/-- the while loop of call_heart_beat, entered with heart_beat_index = w.idx.  What happens to the entry
+    (countdown, prog->heart_beat test, `< 1` test, reset, call) is `NV.Gen.C11.hbBody`, regenerated from the source -/
 def round (sc : Scripts) : Nat → World → World × List Ev
   | 0, w => crash w "round-does-not-terminate"
   | fuel + 1, w =>
@@ -159,22 +168,21 @@ def round (sc : Scripts) : Nat → World → World × List Ev
       match w.hbs[w.idx.toNat]? with
       | none => crash w "heart_beats-index-beyond-num_hb_objs"
       | some hb =>
-        let t := wrap16 (hb.ticks - 1)
-        if !w.nofn.contains hb.ob && decide (t < 1) then
-          let w1 := { w with hbs := w.hbs.set w.idx.toNat { hb with ticks := hb.interval }, cur := some hb.ob,
+        let b := NV.Gen.C11.hbBody (if w.nofn.contains hb.ob then -1 else 0) hb.ticks hb.interval
+        if b.2.1 then
+          let w1 := { w with hbs := w.hbs.set w.idx.toNat { hb with ticks := b.2.2 }, cur := some hb.ob,
                              nb := fun o => if o = hb.ob then w.nb o + 1 else w.nb o }
           match runOps w1 hb.ob (sc hb.ob (w.nb hb.ob)) with
           | (w2, evs, .err) => (errorHandler w2, .beat hb.ob :: evs ++ [.tickAbort])
           | (w2, evs, _) =>
-            let w3 := { w2 with idx := w2.idx + 1 }
-            if w3.idx = w3.todo || w3.flag then (finish w3, .beat hb.ob :: evs ++ [.beatEnd hb.ob, .tickEnd])
+            if (cursorStep w2).2 then (finish (cursorStep w2).1, .beat hb.ob :: evs ++ [.beatEnd hb.ob, .tickEnd])
             else
-              match round sc fuel w3 with
+              match round sc fuel (cursorStep w2).1 with
               | (w4, evs') => (w4, .beat hb.ob :: evs ++ .beatEnd hb.ob :: evs')
         else
-          let w1 := { w with hbs := w.hbs.set w.idx.toNat { hb with ticks := t }, idx := w.idx + 1 }
-          if w1.idx = w1.todo || w1.flag then (finish w1, [.tickEnd])
-          else round sc fuel w1
+          let w1 := { w with hbs := w.hbs.set w.idx.toNat { hb with ticks := b.1 } }
+          if (cursorStep w1).2 then (finish (cursorStep w1).1, [.tickEnd])
+          else round sc fuel (cursorStep w1).1
 
 /-- src/backend.c call_heart_beat (heart beats only: timer_flags = TIMER_FLAG_HEARTBEAT) -/
 def tick (sc : Scripts) (w : World) : World × List Ev :=
